@@ -118,7 +118,9 @@ func progOutcome(src []byte) (s string, why string) {
 }
 
 func bindOutcome(c *bindCase, st reflect.Type, binding bcl.Binding) string {
+	staleSalt++
 	target, cur := makeTarget(c, st)
+	before := fmt.Sprintf("%#v", cur())
 	var err error
 	pan := ""
 	func() {
@@ -129,7 +131,11 @@ func bindOutcome(c *bindCase, st reflect.Type, binding bcl.Binding) string {
 		}()
 		err = bcl.Bind(target, binding)
 	}()
-	return fmt.Sprintf("panic=%q err=%v target=%#v", pan, err, cur())
+	after := fmt.Sprintf("%#v", cur())
+	if after == before {
+		after = "unchanged" // what the target held before varies from call to call on purpose
+	}
+	return fmt.Sprintf("panic=%q err=%v target=%s", pan, err, after)
 }
 
 // disturb makes calls that have nothing to do with the case under test, with all introspection options on and writers of their
